@@ -144,37 +144,56 @@ def run(ctx):
             b = [rng.choice(axis_pairs(a, cs[a])) for a in range(3)]
             boxes.append(tuple(v for p in b for v in p))
         boxes += [rng.choice(valid_boxes(info["scales"][0])) for _ in range(10)]
-        impl = []
+        # further scales on the SAME handle (a pyramid: sizes halved, other chunk sizes): every tuple is presented to
+        # every scale in turn, so that a verdict remembered from one scale cannot leak into another
+        scales = [("k", size, css)]
+        for j in range(rng.choice([0, 1, 1, 2])):
+            sz = [max(1, -(-scales[-1][1][a] // 2)) for a in range(3)]
+            cj = [[rng.choice([1, 2, 3, 7, 16, 32, 64, 100]) for _ in range(3)]] if rng.random() < 0.5 else css
+            info["scales"].append({"key": f"k{j + 2}", "size": sz, "chunk_sizes": cj, "encoding": "raw",
+                                   "resolution": [2 ** (j + 1)] * 3, "voxel_offset": [0, 0, 0]})
+            scales.append((f"k{j + 2}", sz, cj))
+            boxes += [rng.choice(valid_boxes(info["scales"][-1])) for _ in range(10)]
+        if len(scales) > 1:
+            io = precomputed_io.PrecomputedIO(info, acc)
+        ctx.hist("scales_per_handle", len(scales))
+        impl = {k: [] for k, _, _ in scales}
         for b in boxes:
-            try:
-                v = bool(io.validate_chunk_coords("k", b))
-            except Exception as exc:  # noqa
-                v = None
-                ctx.oracle_fail(f"validate_chunk_coords raised {type(exc).__name__}", {"size": size, "chunk_sizes": css, "coords": b})
-            impl.append(v)
-            want = on_grid(size, css, b)
-            ctx.case(("coords", tuple(size), json.dumps(css), b), nontrivial=True,
-                     sample={"size": size, "chunk_sizes": css, "coords": b, "accepted": v} if rng.random() < 0.0005 else None)
-            if v is not None and v != want:
-                ctx.oracle_fail("validate_chunk_coords " + ("accepts a position that is not a cell of the chunk grid"
-                                                             if v else "rejects a cell of the chunk grid"),
-                                {"size": size, "chunk_sizes": css, "coords": list(b)})
-            if not want:
-                before = dict(acc.chunks)
+            for key, size_k, css_k in scales:
                 try:
-                    io.write_chunk(np.zeros((1, max(1, b[5] - b[4]), max(1, b[3] - b[2]), max(1, b[1] - b[0])), dtype="uint8"), "k", b)
-                    stored = True
-                except AssertionError:
-                    stored = False
-                except Exception:  # noqa
-                    stored = False
-                if stored or acc.chunks != before:
-                    ctx.oracle_fail("a chunk position that is not on the chunk grid was stored instead of rejected",
-                                    {"size": size, "chunk_sizes": css, "coords": list(b)})
-                    acc.chunks = before
-        reqs.append(f"coords-validate {core.ilist(size)} " + "/".join(core.ilist(c) for c in css) + " "
-                    + "/".join(core.ilist(b) for b in boxes))
-        meta.append(({"size": size, "chunk_sizes": css}, boxes, "".join("?" if v is None else str(int(v)) for v in impl)))
+                    v = bool(io.validate_chunk_coords(key, b))
+                except Exception as exc:  # noqa
+                    v = None
+                    ctx.oracle_fail(f"validate_chunk_coords raised {type(exc).__name__}",
+                                    {"scale": key, "size": size_k, "chunk_sizes": css_k, "coords": b})
+                impl[key].append(v)
+                want = on_grid(size_k, css_k, b)
+                ctx.case(("coords", key, tuple(size_k), json.dumps(css_k), b), nontrivial=True,
+                         sample={"size": size_k, "chunk_sizes": css_k, "coords": b, "accepted": v} if rng.random() < 0.0005 else None)
+                if v is not None and v != want:
+                    ctx.oracle_fail("validate_chunk_coords " + ("accepts a position that is not a cell of the chunk grid"
+                                                                 if v else "rejects a cell of the chunk grid"),
+                                    {"scale": key, "scales_on_handle": [list(x) for x in scales], "size": size_k,
+                                     "chunk_sizes": css_k, "coords": list(b)})
+                if not want:
+                    before = dict(acc.chunks)
+                    try:
+                        io.write_chunk(np.zeros((1, max(1, b[5] - b[4]), max(1, b[3] - b[2]), max(1, b[1] - b[0])), dtype="uint8"), key, b)
+                        stored = True
+                    except AssertionError:
+                        stored = False
+                    except Exception:  # noqa
+                        stored = False
+                    if stored or acc.chunks != before:
+                        ctx.oracle_fail("a chunk position that is not on the chunk grid was stored instead of rejected",
+                                        {"scale": key, "scales_on_handle": [list(x) for x in scales], "size": size_k,
+                                         "chunk_sizes": css_k, "coords": list(b)})
+                        acc.chunks = before
+        for key, size_k, css_k in scales:
+            reqs.append(f"coords-validate {core.ilist(size_k)} " + "/".join(core.ilist(c) for c in css_k) + " "
+                        + "/".join(core.ilist(b) for b in boxes))
+            meta.append(({"scale": key, "size": size_k, "chunk_sizes": css_k}, boxes,
+                         "".join("?" if v is None else str(int(v)) for v in impl[key])))
     if ctx.driver_ok:
         for rep, (d, boxes, want) in zip(core.driver_batch(reqs), meta):
             if rep != want:
